@@ -151,7 +151,18 @@ func runC04(c *Ctx) {
 
 	rng := newRng(c.Seed)
 	pool := validPool(p, sch, rng, c.pick(900, 3000), c.pick(6, 20))
-	pool = append(pool, encodeSamples(rng, c.pick(6, 30))...)
+	encs := encodeSamples(rng, c.pick(12, 60))
+	for i, b := range encs {
+		// "a file that Encode produced passes CheckIntegrity" (and Decode), in both byte orders
+		d, ig, pn := rejects(b)
+		if d || ig || pn {
+			c.report(fmt.Sprintf("encode-output-rejected:decode=%v,integrity=%v,panic=%v", d, ig, pn),
+				fmt.Sprintf("Encode succeeded but its output (sample %d, %d bytes, architecture byte %d) is rejected: Decode error=%v CheckIntegrity error=%v panic=%v", i, len(b), archByteOf(b), d, ig, pn),
+				map[string]interface{}{"file": toInts(b)})
+		}
+	}
+	c.Cov["encode_outputs_checked"] = len(encs)
+	pool = append(pool, encs...)
 
 	// 2. burst sweep
 	var tested int64
@@ -179,6 +190,17 @@ func runC04(c *Ctx) {
 	for i, b := range pool {
 		run("integrity", b, fmt.Sprintf("valid file %d", i))
 		run("decode", b, fmt.Sprintf("valid file %d", i))
+		// the same verdicts however the reader chunks its answers (the
+		// CRC-only path and the buffered path feed the checksum differently)
+		for k := 0; k < c.pick(2, 6); k++ {
+			rs := readScript{chunks: chunkScripts[1+rng.Intn(len(chunkScripts)-1)], cut: -1, fault: -1, withEOF: rng.Intn(2) == 0}
+			for _, api := range []string{"integrity", "decode", "integrity_hdr"} {
+				id++
+				cl := p.runCall(id, api, b, rs, CallOpts{}, true)
+				cl.Note = fmt.Sprintf("valid file %d, reads chunked %v", i, rs.chunks)
+				calls = append(calls, cl)
+			}
+		}
 		for k := 0; k < c.pick(3, 20); k++ {
 			bb := append([]byte{}, b...)
 			bit := 8 + rng.Intn(len(bb)*8-8)
@@ -252,6 +274,14 @@ func runC04(c *Ctx) {
 	c.Cov["rule"] = "bursts: valid files x every start bit outside byte 0 and bytes 4..7 x patterns (all odd 16-bit patterns for up to two short files in the thorough tier; else 1 bit, 2 adjacent, 16 ones, 3 structured, 8 seeded, and the patterns clearing / setting the 16-bit word); header matrix: sizes 12/14 x protocol bytes x data types x stored CRC {0, correct, corrupted, random} x corrupted covered bytes, through DecodeHeader, CheckIntegrity (both modes), Decode and Header.CheckIntegrity"
 	c.sample(map[string]interface{}{"kind": "header variant call", "note": calls[len(calls)-1].Note, "err": calls[len(calls)-1].Ret.Err, "contract": calls[len(calls)-1].Final + ": " + calls[len(calls)-1].Why})
 	c.finish()
+}
+
+// archByteOf: architecture byte of the first definition record of a file
+func archByteOf(b []byte) int {
+	if len(b) > int(b[0])+2 {
+		return int(b[int(b[0])+2])
+	}
+	return -1
 }
 
 func headerProtos(c *Ctx) []int {
